@@ -1,5 +1,5 @@
 """C17 — Quoted amounts equal executed amounts; slippage limits are honoured."""
-from .. import sym, guards, arms, model
+from .. import sym, guards, arms, model, norm
 from ..sym import tag, payload, kids
 from ..norm import N
 from .common import *
@@ -86,6 +86,38 @@ def run(ctx):
                 qok = False
         ctx.inst("R17.1", "query-returns-priced:%s" % qvar, qok and bool(qa.ok_paths()), qa.fn.where(),
                  "query result is %s" % ("the pricing function's result" if qok else "NOT the unmodified pricing result"))
+
+        # the execute arm does not call the pricing function for an amount of zero (it exchanges 0), the query always
+        # does: the two agree only if the pricing function itself answers 0 for a zero amount - on a path that has
+        # established the amount to be zero (round-15 seed C17q folded that guard into the rounding test: on reserves
+        # that are not whole units a zero amount was quoted as 2)
+        zb = None
+        nz_ = 0
+        bypass = any(not any(e.target is not None and e.target.pretty in xt for e in q.events) for q in xa.ok_paths())
+        if bypass and len(xt) == 1:
+            pf_ = ix.world.by_pretty.get(next(iter(xt)))
+            amt_i = [i for i in range(pf_.arg_count) if pf_.locals[i + 1]["ty"].endswith("Uint128")]
+            amt_p = sym.param(pf_.key, amt_i[0], pf_.param_name(amt_i[0])) if amt_i else None
+            zero_answer = False
+            for p_ in ix.ok_paths(pf_):
+                az = None
+                for (at, o, _b, _l) in p_.conds:
+                    a2 = ix.inline(at)
+                    if tag(a2) == "op" and payload(a2)[0] == "is_zero" and ix.inline(kids(a2)[0]) == amt_p and o in (True, False):
+                        az = o
+                    if tag(a2) == "op" and payload(a2)[0] in ("eq", "ne") and len(kids(a2)) == 2 and o in (True, False):
+                        ks = [ix.inline(k) for k in kids(a2)]
+                        if amt_p in ks and any(N(ix, k) == ("int", 0) for k in ks):
+                            az = ((payload(a2)[0] == "eq") == o)
+                if az is True:
+                    nz_ += 1
+                    if N(ix, sym.unwrap(p_.ret)) == ("int", 0):
+                        zero_answer = True
+                    else:
+                        zb = zb or "the pricing function answers %s for an amount established to be zero" % norm.show(N(ix, sym.unwrap(p_.ret)))[:100]
+            if not zero_answer:
+                zb = zb or "the pricing function has no path that answers 0 because the amount is zero, while the execute arm exchanges 0 without calling it: quote and execution differ for amount 0"
+            ctx.inst("R17.1", "zero-amount-quote:%s/%s" % (xvar, qvar), zb is None, pf_.where(), zb or "%d zero-amount paths of the pricing function answer 0" % nz_)
 
         # ---- R17.2: reserve writer arguments
         bad = None
